@@ -164,6 +164,17 @@ def main():
 
     runner = lib.Runner(bins, workdir, chunk_timeout=120 if tier == 'quick' else 600)
     ctx = props.Ctx(prop, tier, random.Random(seed), runner, seed)
+    # 2a. source tie by regeneration: the tables and constants this property rests on are re-extracted from the
+    # source text and the kernel checks that the Model uses exactly those (py/srcfacts.py)
+    try:
+        import srcfacts
+        st = srcfacts.check(REPO, srcfacts.RELEVANT.get(prop, []), os.path.join(workdir, 'srctie')) if not replay else {}
+    except Exception:
+        st = {'internal': traceback.format_exc()[-400:]}
+    cov['source_tie'] = st
+    if any(v != 'tied' for v in st.values()):
+        # a table moved or changed: not a violation by itself (the differential correspondence decides), search harder
+        ctx.boost = max(ctx.boost, 4)
     try:
         if replay:
             doc = json.load(open(replay))
